@@ -49,15 +49,16 @@ theorem potential_spawnTask (s : St) (t : Nat) : potential (spawnTask s t) ≤ p
       have e : tw3 { tk with started := true } = tw3 tk := rfl
       omega
 
-theorem potential_grant (s : St) (wk : Kind) (wi : Nat) : potential (grant s wk wi) = potential s + 1 := by
+theorem potential_grant (s : St) (wk : Kind) (wi : Nat) : potential (grant s wk wi) ≤ potential s + 1 := by
   unfold grant
   split
-  · exact potential_enqueue _ _ _
+  · rw [potential_enqueue]; exact Nat.le_refl _
   · rename_i tk h
-    rw [potential_enqueue]
     have := potential_setTask s wi tk { tk with granted := true } h
     have e : tw3 { tk with granted := true } = tw3 tk := rfl
-    omega
+    split
+    · omega
+    · rw [potential_enqueue]; omega
 
 theorem potential_wakeCond (s : St) (k : Nat) : potential (wakeCond s k) ≤ potential s + 1 := by
   unfold wakeCond
@@ -70,21 +71,22 @@ theorem potential_wakeCond (s : St) (k : Nat) : potential (wakeCond s k) ≤ pot
       have e : cw { c with permits := if c.cap1 then 1 else c.permits + 1 } = cw c := rfl
       omega
     · rename_i wk wi r hw
-      rw [potential_grant]
+      have hg := potential_grant { s with conds := s.conds.set k { c with waiters := r } } wk wi
       have := potential_setCond s k c { c with waiters := r } hc
       have e1 : cw c = r.length + 1 := by unfold cw; rw [hw]; simp
       have e2 : cw { c with waiters := r } = r.length := rfl
       omega
 
-theorem potential_grantAll : ∀ (l : List (Kind × Nat)) (s : St), potential (grantAll l s) = potential s + l.length := by
+theorem potential_grantAll : ∀ (l : List (Kind × Nat)) (s : St), potential (grantAll l s) ≤ potential s + l.length := by
   intro l
   induction l with
-  | nil => intro s; rfl
+  | nil => intro s; exact Nat.le_refl _
   | cons a l ih =>
     intro s
     obtain ⟨wk, wi⟩ := a
     simp only [grantAll, List.length_cons]
-    rw [ih, potential_grant]
+    have h1 := ih (grant s wk wi)
+    have h2 := potential_grant s wk wi
     omega
 
 theorem potential_wakeAll (s : St) (k : Nat) : potential (wakeAll s k) ≤ potential s + 1 := by
@@ -92,10 +94,22 @@ theorem potential_wakeAll (s : St) (k : Nat) : potential (wakeAll s k) ≤ poten
   split
   · omega
   · rename_i c hc
-    rw [potential_grantAll]
+    have hg := potential_grantAll c.waiters { s with conds := s.conds.set k { c with waiters := [] } }
     have := potential_setCond s k c { c with waiters := [] } hc
     have e1 : cw c = c.waiters.length := rfl
     have e2 : cw { c with waiters := [] } = 0 := rfl
+    omega
+
+theorem potential_removeTimer (s : St) (tm : Timer) : potential (removeTimer s tm) = potential s := rfl
+
+theorem potential_removeWaiter (s : St) (q : Nat) (w : Kind × Nat) : potential (removeWaiter s q w) ≤ potential s := by
+  unfold removeWaiter
+  split
+  · exact Nat.le_refl _
+  · rename_i cd hc
+    have := potential_setCond s q cd { cd with waiters := cd.waiters.erase w } hc
+    have e : cw { cd with waiters := cd.waiters.erase w } ≤ cw cd := by
+      unfold cw; exact List.length_erase_le
     omega
 
 theorem potential_setProg (s : St) (i : Nat) (p r : List Instr) (h : TaskAt s i p) :
@@ -143,7 +157,7 @@ theorem potential_runProg (k : Kind) (i : Nat) :
     have hs := potential_setProg s i (ins :: r) r h
     have ht := taskAt_setProg s i (ins :: r) r h
     -- consume the instruction, log, continue
-    have hcont : ∀ (c' : Nat) (s1 : St), TaskAt s1 i (ins :: r) → potential s1 = potential s → 2 ≤ iw3 ins →
+    have hcont : ∀ (c' : Nat) (s1 : St), TaskAt s1 i (ins :: r) → potential s1 ≤ potential s → 2 ≤ iw3 ins →
         potential (runProg k i r c' s.now s.phase (logAt (setProg s1 i r) i rdy org)) ≤ potential s := by
       intro c' s1 h1 hm hw
       have hs1 := potential_setProg s1 i (ins :: r) r h1
@@ -181,7 +195,7 @@ theorem potential_runProg (k : Kind) (i : Nat) :
       omega
     | resume =>
       simp only [runProg]
-      have := hcont c s h rfl (by simp [iw3])
+      have := hcont c s h (Nat.le_refl _) (by simp [iw3])
       omega
     | wait q =>
       simp only [runProg]
@@ -237,7 +251,7 @@ theorem potential_runProg (k : Kind) (i : Nat) :
           · rename_i hc0
             exact hdefer (by simpa using hc0)
           · split
-            · have := hcont (c - 1) s h rfl (by simp [iw3])
+            · have := hcont (c - 1) s h (Nat.le_refl _) (by simp [iw3])
               omega
             · have ht' : TaskAt { s with tasks := s.tasks.set t { tj with joiner := some (k, i) } } i (.join t :: r) :=
                 taskAt_setTask s t i _ tj _ hj rfl rfl h
@@ -259,9 +273,51 @@ theorem potential_runProg (k : Kind) (i : Nat) :
         · rename_i hc0
           exact hdefer (by simpa using hc0)
         · split
-          · have := hcont (c - 1) s h rfl (by simp [iw3])
+          · have := hcont (c - 1) s h (Nat.le_refl _) (by simp [iw3])
             omega
           · omega
+    | waitT q d =>
+      simp only [runProg]
+      split
+      · omega
+      · rename_i cd hc
+        split
+        · split
+          · rw [potential_addTimer]
+            have ht' : TaskAt { s with conds := s.conds.set q { cd with waiters := cd.waiters ++ [(k, i)] } } i
+                (.waitT q d :: r) := h
+            have h1 := potential_setProg _ i (.waitT q d :: r) (.waitingT q (s.now + d) :: r) ht'
+            have h2 := potential_setCond s q cd { cd with waiters := cd.waiters ++ [(k, i)] } hc
+            have e : cw { cd with waiters := cd.waiters ++ [(k, i)] } = cw cd + 1 := by unfold cw; simp
+            simp [iw3] at h1
+            omega
+          · have := hcont c s h (Nat.le_refl _) (by simp [iw3])
+            omega
+        · have ht' : TaskAt { s with conds := s.conds.set q { cd with permits := cd.permits - 1 } } i
+              (.waitT q d :: r) := h
+          have h2 := potential_setCond s q cd { cd with permits := cd.permits - 1 } hc
+          have e : cw { cd with permits := cd.permits - 1 } = cw cd := rfl
+          have := hcont c _ ht' (by omega) (by simp [iw3])
+          omega
+    | waitingT q t =>
+      simp only [runProg]
+      split
+      · omega
+      · rename_i tk htk
+        split
+        · have ht' : TaskAt (removeTimer { s with tasks := s.tasks.set i { tk with granted := false } } ⟨t, k, i⟩) i
+              (.waitingT q t :: r) := taskAt_setTask s i i _ tk _ htk rfl rfl h
+          have h2 := potential_setTask s i tk { tk with granted := false } htk
+          have e : tw3 { tk with granted := false } = tw3 tk := rfl
+          have e2 : potential (removeTimer { s with tasks := s.tasks.set i { tk with granted := false } } ⟨t, k, i⟩)
+              = potential { s with tasks := s.tasks.set i { tk with granted := false } } := rfl
+          have := hcont c _ ht' (by omega) (by simp [iw3])
+          omega
+        · split
+          · omega
+          · have := hcont c _ (taskAt_removeWaiter s q (k, i) i _ h) (potential_removeWaiter s q (k, i))
+              (by simp [iw3])
+            omega
     | sleep d =>
       simp only [runProg]
       split
@@ -269,7 +325,7 @@ theorem potential_runProg (k : Kind) (i : Nat) :
         have := potential_setProg s i (.sleep d :: r) (.sleeping (s.now + d) :: r) h
         simp [iw3] at this
         omega
-      · have := hcont c s h rfl (by simp [iw3])
+      · have := hcont c s h (Nat.le_refl _) (by simp [iw3])
         omega
     | sleepUntil t =>
       simp only [runProg]
@@ -278,13 +334,13 @@ theorem potential_runProg (k : Kind) (i : Nat) :
         have := potential_setProg s i (.sleepUntil t :: r) (.sleeping t :: r) h
         simp [iw3] at this
         omega
-      · have := hcont c s h rfl (by simp [iw3])
+      · have := hcont c s h (Nat.le_refl _) (by simp [iw3])
         omega
     | sleeping t =>
       simp only [runProg]
       split
       · omega
-      · have := hcont c s h rfl (by simp [iw3])
+      · have := hcont c s h (Nat.le_refl _) (by simp [iw3])
         omega
 
 theorem potential_markPolled (s : St) (i : Nat) : potential (markPolled s i) = potential s := by
